@@ -613,6 +613,10 @@ def cases(tier, seed=0):
   for t in ("LAMMPS", "DLPOLY", "GULP", "excel", "setfl", "setfl_fs", "DL_POLY_EAM", "DL_POLY_EAM_fs", "excel_eam", "excel_eam_fs", "eam_adp"):
     for nr in ((3,) if q else (3, 5)):
       cs.append(Case("repeat %s %d" % (t, nr), repeat_case, target=t, nr=nr))
+  # the same python objects handed to two writers: what the second writes depends on the model only (shared with C03-C05)
+  from checks import eam_api as _ea
+  for t in ("setfl", "DL_POLY_EAM", "setfl_fs", "DL_POLY_EAM_fs", "eam_adp"):
+    cs += _ea.written_first_cases(t, tier)
   return cs
 
 
